@@ -131,14 +131,14 @@ def branch_blocks(func, cond_pred):
 
 
 def str_eq_cond(varname, literal):
-    """Predicate for conditions like `cmd == "literal"` (std::operator== on strings)."""
+    """Predicate for conditions like `cmd == "literal"` (std::operator== on strings); varname None = any variable."""
     def p(e):
         if not isinstance(e, dict) or e.get('k') != 'call':
             return False
         if cname(e).split('::')[-1] != 'operator==':
             return False
         ops = ([e['recv']] if e.get('recv') is not None else []) + list(e.get('args', []))
-        has_var = any(isinstance(o, dict) and o.get('k') == 'var' and o.get('n') == varname for o in ops)
+        has_var = any(isinstance(o, dict) and o.get('k') == 'var' and (varname is None or o.get('n') == varname) for o in ops)
         has_lit = any(isinstance(o, dict) and any(n.get('k') == 'str' and n.get('v') == literal for n in walk(o)) for o in ops)
         return has_var and has_lit
     return p
